@@ -423,7 +423,8 @@ def worker(seed):
     if p is None and why == "pristine-block-does-not-verify-independently":
         # a block whose signature does not verify (apksig's negative samples, the forged blocks of corpus/apksig-gen):
         # no certificate may be reported for it, whatever was processed earlier in the process
-        return invalid_block_case(seed, apk_name, sig_name, [c[0] for c in cands if c[0].startswith("gen-") and c[0] != apk_name])
+        return invalid_block_case(seed, apk_name, sig_name,
+                                  [c[0] for c in candidates() if c[0].startswith("gen-") and c[0] != apk_name])
     if p is None:
         return dict(base, problems=[], digest=core.digest_of([apk_name, sig_name, why]), skipped={why: 1})
     from androguard.core.apk import APK
@@ -448,7 +449,7 @@ def worker(seed):
     outcomes = {}
     n = 0
     nontriv = 0
-    prior_pool = [c[0] for c in cands if c[0].startswith("gen-") and c[0] != apk_name]
+    prior_pool = [c[0] for c in candidates() if c[0].startswith("gen-") and c[0] != apk_name]
     rel = related_archives(apk_name, prior_pool)
     prior_pool = rel * 4 + prior_pool          # archives sharing a signer id with this one are the interesting earlier work
     if "signed-attrs" in p["regions"]:
